@@ -36,6 +36,14 @@ def generate(rng, tier):
         shape, xs, flat, bc, lanes = c02.gen_spline(rng, "Q", tier, nmax=6)
         qs = gen.queries_q(rng, xs, 4, ext=False)
         cases.append({"line": i1_line("Q", xs, shape, flat, ("spl", False, bc), e_array("Q", [len(qs)], qs)), "meta": {}})
+        # the same query with rejected elements through the static rank-1 path, the dynamic path and a rank-2 spelling: the
+        # answer (here: which element the error names) must not depend on the entry point
+        span = xs[-1] - xs[0]
+        bad = list(qs[:4]) + [xs[0]]
+        bad[1], bad[3] = xs[-1] + span, xs[0] - span * 3
+        for qtag, qshape in (("sta", [len(bad)]), ("dyn", [len(bad)]), ("sta", [1, len(bad)]), ("dyn", [len(bad), 1])):
+            cases.append({"line": i1_line("Q", xs, shape, flat, ("spl", False, bc), e_array("Q", qshape, bad, qtag=qtag)),
+                          "meta": {"oob": True}})
     return cases
 
 
@@ -44,6 +52,8 @@ def nontrivial(case, res):
 
 
 def oracle(case, res):
+    if case["meta"].get("oob"):
+        return None if res.kind == "oob" else f"rejected elements: the call must return OutOfBounds, got {res.raw[:80]}"
     return None
 
 
@@ -68,5 +78,15 @@ def extra(rng, tier):
             pass
     else:
         fails.append({"line": f"vharness_hist {seed} {n}", "impl": "no SUMMARY", "required": "the run must complete"})
-    return {"nontrivial": hists, "evaluations": ops, "failures": fails[:20], "hist": {"histories": hists, "operations_replayed": ops},
+    # the same logical query through four spellings (static / dynamic rank 1, 1xn, nx1): identical answers, error answers included
+    import random
+    grp = [c for c in generate(random.Random(seed), tier) if c["meta"].get("oob")]
+    outs = vlib.run_impl_only(ID, [c["line"] for c in grp], tag="spellings")
+    for k in range(0, len(grp) - 3, 4):
+        answers = [o.split(" ", 1)[0] + " " + " ".join(o.split()[-2:]) if o.startswith("oob") else o for o in outs[k:k + 4]]
+        if len(set(answers)) != 1:
+            fails.append({"line": grp[k]["line"], "impl": " | ".join(a[:80] for a in answers),
+                          "required": "the same query values through static rank-1, dynamic rank-1, 1xn and nx1 query arrays must get the same answer "
+                                      "(same rejected element named)"})
+    return {"nontrivial": hists, "evaluations": ops, "failures": fails[:20], "hist": {"histories": hists, "operations_replayed": ops, "spelling_groups": len(grp) // 4},
             "notes": [summary or "", f"seed={seed}"] + [l for l in out if l.startswith("STATS")]}
